@@ -1,8 +1,15 @@
 import sys, os, shutil, subprocess, re
 sys.path.insert(0, "/verif")
 from translator import reduce_c05
-FILES = ["sktime/forecasting/compose/_reduce.py", "sktime/forecasting/base/_sktime.py", "sktime/utils/datetime.py", "sktime/forecasting/base/_base.py", "sktime/base/_base.py"]
+FILES = ["sktime/forecasting/compose/_reduce.py", "sktime/forecasting/base/_sktime.py", "sktime/utils/datetime.py", "sktime/forecasting/base/_base.py", "sktime/base/_base.py",
+         "sktime/utils/validation/forecasting.py", "sktime/utils/validation/series.py"]
 R = "sktime/forecasting/compose/_reduce.py"; S = "sktime/forecasting/base/_sktime.py"
+V = "sktime/utils/validation/forecasting.py"; VS = "sktime/utils/validation/series.py"
+UPD = '''                combined = X.combine_first(self._X)
+                seen = list(self._X.columns)
+                unseen = [c for c in combined.columns if c not in self._X.columns]
+                self._X = combined[seen + unseen]
+'''
 MUTS = [
  ("feat shifted by one", R, "Xt = Zt[:, :, :window_length]", "Xt = Zt[:, :, 1 : window_length + 1]"),
  ("target col -1", R, "yt = Zt[:, 0, window_length + fh]", "yt = Zt[:, 0, window_length + fh - 1]"),
@@ -27,6 +34,24 @@ MUTS = [
  ("concat X first", R, "z = np.column_stack([z, X.to_numpy()])", "z = np.column_stack([X.to_numpy(), z])"),
  ("tabular reshape time-major", R, "return yt, Xt.reshape(Xt.shape[0], -1)", "return yt, Xt.transpose(0, 2, 1).reshape(Xt.shape[0], -1)"),
  ("predictable guard dropped", R, "        if not self._is_predictable(y_last):\n            return self._predict_nan(fh)\n\n        if self._X is None:", "        if self._X is None:"),
+ ("check_X sorts the columns (C05-f style)", V, "    # Check if pandas series or numpy array\n    return check_series(\n        X,", "    X = X.sort_index(axis=1) if hasattr(X, 'columns') else X\n    return check_series(\n        X,"),
+ ("check_series sorts in place", VS, "    return Z\n\n\ndef check_time_index", "    if isinstance(Z, pd.DataFrame):\n        Z.sort_index(axis=1, inplace=True)\n    return Z\n\n\ndef check_time_index"),
+ ("check_series returns a reordered copy", VS, "    return Z\n\n\ndef check_time_index", "    return Z[sorted(Z.columns)] if isinstance(Z, pd.DataFrame) else Z\n\n\ndef check_time_index"),
+ ("check_equal_time_index relabels X", VS, "        if not first_index.equals(y.index):", "        y.columns = sorted(y.columns) if hasattr(y, 'columns') else None\n        if not first_index.equals(y.index):"),
+ ("_set_y_X stores sorted X", S, "        # set initial cutoff to the end of the training data", "        if self._X is not None:\n            self._X = self._X.sort_index(axis=1)\n        # set initial cutoff to the end of the training data"),
+ ("update merges a column-sorted X", S, "                combined = X.combine_first(self._X)\n", "                combined = X.sort_index(axis=1).combine_first(self._X)\n"),
+ ("update: plain combine_first (F-C05-1 again)", S, UPD, "                self._X = X.combine_first(self._X)\n"),
+ ("update: selection drops the unseen columns", S, UPD, "                combined = X.combine_first(self._X)\n                self._X = combined[list(self._X.columns)]\n"),
+ ("update: sorted selection", S, UPD, "                combined = X.combine_first(self._X)\n                self._X = combined[sorted(combined.columns)]\n"),
+ ("update: unseen columns first", S, UPD, "                combined = X.combine_first(self._X)\n                seen = list(self._X.columns)\n                unseen = [c for c in combined.columns if c not in self._X.columns]\n                self._X = combined[unseen + seen]\n"),
+ ("update: union with default sort", S, UPD, "                combined = X.combine_first(self._X)\n                self._X = combined.reindex(columns=self._X.columns.union(combined.columns))\n"),
+ ("update: order of the NEW frame first", S, UPD, "                combined = X.combine_first(self._X)\n                seen = list(X.columns)\n                unseen = [c for c in combined.columns if c not in X.columns]\n                self._X = combined[seen + unseen]\n"),
+ ("HARMLESS update: union(sort=False) + reindex", S, UPD, "                combined = X.combine_first(self._X)\n                self._X = combined.reindex(columns=self._X.columns.union(combined.columns, sort=False))\n"),
+ ("HARMLESS update: starred list + generator", S, UPD, "                combined = X.combine_first(self._X)\n                self._X = combined[[*self._X.columns, *(c for c in combined.columns if c not in self._X.columns)]]\n"),
+ ("HARMLESS update: .loc[:, seen + unseen]", S, UPD, "                combined = X.combine_first(self._X)\n                seen = self._X.columns.tolist()\n                unseen = [label for label in combined.columns if label not in seen]\n                self._X = combined.loc[:, seen + unseen]\n"),
+ ("HARMLESS update: Index.append(difference(sort=False))", S, UPD, "                combined = X.combine_first(self._X)\n                self._X = combined[self._X.columns.append(combined.columns.difference(self._X.columns, sort=False))]\n"),
+ ("direct trains on reversed columns", R, "        yt, Xt = self._transform(y, X)\n\n        # Iterate over forecasting horizon, fitting a separate estimator for each step.", "        yt, Xt = self._transform(y, X if X is None else X[list(reversed(X.columns))])\n\n        # Iterate over forecasting horizon, fitting a separate estimator for each step."),
+ ("HARMLESS: fit trains on self._y, self._X", R, "        self._fit(y, X)\n", "        self._fit(self._y, self._X)\n"),
  ("public subclass override", R, "class RecursiveTabularRegressionForecaster(_RecursiveReducer):", "class RecursiveTabularRegressionForecaster(_RecursiveReducer):\n    def _get_last_window(self):\n        return self._y.iloc[-self.window_length_:].to_numpy(), None\n"),
 ]
 def bridge_ok(gen):
